@@ -36,6 +36,23 @@ def run(ctx):
         r10_error_owns_its_text(ctx, facts, cfg)
         r11_error_text_in_place(ctx, facts, cfg)
         r13_gives_up_the_file_only_when_it_is_gone(ctx, facts, cfg)
+        r14_no_stdio_call_on_a_closed_file(ctx, facts, cfg)
+        # a sink that throws while the backtrace is replayed loses that statement only: each replayed statement is dispatched under its
+        # own catch-all, so the replay goes on and the ring is cleared (= C18.R2k)
+        from rules import c18
+        from rules.c12 import _Only
+        from rules.c09 import Renamed as _Ren15
+        c18.r2(_Only(_Ren15(ctx, "C18.R2k", "C10.R15"), ("C18.R2k",)), facts, cfg)
+        if cfg == "A":
+            # the decoder runs outside every per-statement handler: a LOG_RUNTIME_METADATA statement that could not be formatted goes
+            # through _apply_runtime_metadata with the error text in place of its message; that function cuts the text at separators
+            # it finds or not, without throwing (= C12.R9: the accepted shape of the cut; another shape is not decided)
+            from rules import c12
+            c12.r9_runtime_metadata(_Ren15(ctx, "C12.R9", "C10.R16"), facts)
+            # a write that failed is reported once: whether it failed is decided from what this very fwrite returned, for the bytes of
+            # this statement (= C14.R1h; a test of the stream's sticky error flag makes every later write 'fail' as well)
+            from rules import c14
+            c14.stream_write(_Ren15(ctx, "C14.R1h", "C10.R17"), facts)
     # state that is reused from one statement to the next must not carry a failed (or any earlier) statement into the next one:
     # the shared argument store (= C04.R6) and the JSON sink's message buffer (= C19.R3)
     from rules import c04, c19
@@ -333,6 +350,76 @@ def r10_error_owns_its_text(ctx, facts, cfg):
     ctx.ob("C10.R10", "QuillError:owns-its-text", not nonown and bool(owned) and from_owned and init_ok,
            "no member merely refers to memory owned elsewhere (%s), every constructor copies / moves its argument into the owned string "
            "(%s, %d constructor(s)) and what() returns that string's characters (%s)" % (nonown, init_ok, len(ctors), from_owned), loc=crec.get("loc", ""))
+
+
+def r14_no_stdio_call_on_a_closed_file(ctx, facts, cfg):
+    """R14: after a failed re-open the sink has no open file (`_file == nullptr`) and must keep reporting, not crash: every call that hands
+    `_file` to a C library function (fwrite through safe_fwrite, fflush, fclose, fileno, setvbuf ...) lies behind the 'file is open'
+    outcome of a test of `_file` on every path from the function's entry — or the function is reached only from call sites that do
+    (one level). Sibling agreement: write_log, flush_sink and close_file test it; a member that does not is the odd one out."""
+    SINKS = r"^quill::(StreamSink|FileSink|RotatingSink<.*>|detail::JsonSink<.*>)$"
+    fns = [f for f in facts.fns if f.config == cfg and f.cls and re.match(SINKS, f.cls) and not f.rec.get("ctor")]
+
+    def uses_of(f):
+        out = []
+        for c in f.calls():
+            if c["k"] not in ("CallExpr", "CXXMemberCallExpr"):
+                continue
+            if any(is_this_field(a, "_file") for a in (c.get("args") or [])) or \
+                    any(is_this_field(x, "_file") for a in (c.get("args") or []) for x in walk(a) if isnode(a) and a["k"] in ("CallExpr",)):
+                out.append(c)
+        return out
+
+    def open_edges(f):
+        g = f.g
+        out = []
+        for bid in g.blocks:
+            c = g.term_cond(bid)
+            if c is None:
+                continue
+            core, neg = core_and_neg(c)
+            if is_this_field(strip(core, casts=True), "_file"):
+                out.append((bid, "F" if neg else "T"))
+                continue
+            nc = norm_cmp(c)
+            from qlib import peel_not
+            cc = peel_not(c)
+            if nc and nc[0] in ("==", "!=") and isnode(cc) and cc["k"] == "BinaryOperator" and \
+                    any(is_this_field(strip(x, casts=True), "_file") for x in (cc["lhs"], cc["rhs"])) and any(is_null(x) for x in (cc["lhs"], cc["rhs"])):
+                out.append((bid, "T" if nc[0] == "!=" else "F"))
+        return out
+
+    n = 0
+    for f in fns:
+        us = uses_of(f)
+        if not us:
+            continue
+        g = f.g
+        oe = open_edges(f)
+        for c in us:
+            n += 1
+            ps = g.positions(c)
+            guarded = bool(oe) and not g.exists_path([g.entry_node], ps, avoid_edges=oe)
+            how = "tested in the function"
+            if not guarded:
+                # one level up: every call site of this function, in the sink classes, lies behind the 'open' outcome
+                sites, ok_sites = 0, True
+                for f2 in fns:
+                    cs2 = [c2 for c2 in f2.calls() if short(c2.get("callee") or "") == short(f.name) or
+                           (c2.get("callee") or "").split("<")[0].endswith("::" + f.base) and c2["k"] == "CXXMemberCallExpr" and f.base not in ("write_log",)]
+                    if not cs2 or f2 is f:
+                        continue
+                    oe2 = open_edges(f2)
+                    for c2 in cs2:
+                        sites += 1
+                        if not oe2 or f2.g.exists_path([f2.g.entry_node], f2.g.positions(c2), avoid_edges=oe2):
+                            ok_sites = False
+                guarded = sites > 0 and ok_sites
+                how = "tested at each of its %d call site(s)" % sites
+            ctx.ob("C10.R14", "%s:%s" % (short(f.name).replace("quill::", ""), (c.get("callee") or "?").split("(")[0][:40]), guarded,
+                   "`_file` is handed to %s only behind the 'file is open' outcome of a test of `_file` (%s): a sink whose file could not be "
+                   "re-opened reports and skips, it does not dereference a null FILE*" % ((c.get("callee") or "?")[:50], how), loc=c.get("loc"), fn=f)
+    ctx.floor("C10.R14", "calls that hand _file to the C library", n, 5)
 
 
 def r13_gives_up_the_file_only_when_it_is_gone(ctx, facts, cfg):
